@@ -56,8 +56,60 @@ func TestC06_SessionBehindHandshake(t *testing.T) {
 		default: // around the end of the head
 			p.EndCuts = rapid.SliceOfNDistinct(rapid.IntRange(-6, 8), 1, 3, func(i int) int { return i }).Draw(rt, "endcuts")
 		}
+		// In a third of the cases the Stream has been through a refused attempt before: a server answered the upgrade
+		// request with an ordinary HTTP error whose body arrived together with the head. Nothing of that attempt may
+		// reach the reader of the session that follows.
+		refusedFirst := ""
+		if rapid.IntRange(0, 2).Draw(rt, "refusedFirst") == 0 {
+			body := rapid.OneOf(rapid.Just([]byte("upstream unavailable\n")), rapid.Just(rfc6455.Encode(rfc6455.Frame{Fin: true, Opcode: 2, Payload: []byte("stale"), LenBytes: -1})), rapid.SliceOfN(rapid.Byte(), 1, 200)).Draw(rt, "refusedBody")
+			status := rapid.SampledFrom([]string{"503 Service Unavailable", "403 Forbidden", "200 OK", "101 Switching Protocols"}).Draw(rt, "refusedStatus")
+			rl, err := net.Listen("tcp", "127.0.0.1:0")
+			if err != nil {
+				rt.Fatalf("INFRA: listen: %v", err)
+			}
+			go func() {
+				c, err := rl.Accept()
+				if err != nil {
+					return
+				}
+				defer c.Close()
+				_ = c.SetDeadline(time.Now().Add(3 * time.Second))
+				var req []byte
+				b := make([]byte, 4096)
+				for !bytes.Contains(req, []byte("\r\n\r\n")) {
+					n, err := c.Read(b)
+					req = append(req, b[:n]...)
+					if err != nil {
+						return
+					}
+				}
+				// (a 101 without Upgrade/Accept headers is refused as well)
+				_, _ = c.Write(append([]byte(fmt.Sprintf("HTTP/1.1 %s\r\nContent-Length: %d\r\n\r\n", status, len(body))), body...))
+				_, _ = c.Read(b) // until the client hangs up
+			}()
+			raddr := fmt.Sprintf("ws://%s/", rl.Addr().String())
+			var rerr error
+			if rapid.Bool().Draw(rt, "refusedAsync") {
+				done := false
+				s.AsyncHandshake(raddr, func(err error) { done, rerr = true, err })
+				for deadline := time.Now().Add(5 * time.Second); !done && time.Now().Before(deadline); {
+					_ = ioc.RunOneFor(2 * time.Millisecond)
+				}
+				if !done {
+					rt.Fatalf("INFRA: AsyncHandshake against the refusing server never completed")
+				}
+			} else {
+				rerr = s.Handshake(raddr)
+			}
+			_ = rl.Close()
+			if rerr == nil {
+				rt.Fatalf("INFRA: the handshake against a server answering %q without the upgrade headers succeeded (C18's subject)", status)
+			}
+			refusedFirst = fmt.Sprintf("%s+%dB body", status, len(body))
+		}
 		async := rapid.Bool().Draw(rt, "async")
-		desc := fmt.Sprintf("piggy=%d partial=%d later=%d cuts=%v endcuts=%v extra=%v async=%v", len(p.Piggy), p.PartialCut, len(p.Later), p.Cuts, p.EndCuts, p.Extra, async)
+		desc := fmt.Sprintf("refusedFirst=%q piggy=%d partial=%d later=%d cuts=%v endcuts=%v extra=%v async=%v", refusedFirst, len(p.Piggy), p.PartialCut, len(p.Later), p.Cuts, p.EndCuts, p.Extra, async)
+		_ = refusedFirst
 		out := make(chan hsServerResult, 1)
 		go serveOne(ln, p, out)
 		addr := fmt.Sprintf("ws://%s/", ln.Addr().String())
@@ -66,10 +118,11 @@ func TestC06_SessionBehindHandshake(t *testing.T) {
 		if async {
 			done := false
 			s.AsyncHandshake(addr, func(err error) { done, herr = true, err })
-			deadline := time.Now().Add(8 * time.Second)
+			deadline := time.Now().Add(vt.Patience(8 * time.Second))
 			for !done {
 				_ = ioc.RunOneFor(2 * time.Millisecond)
 				if time.Now().After(deadline) {
+					vt.TimedOut()
 					rt.Fatalf("AsyncHandshake callback not invoked within 8 s of a complete conforming response; %s", desc)
 				}
 			}
@@ -88,7 +141,8 @@ func TestC06_SessionBehindHandshake(t *testing.T) {
 			}
 			select {
 			case herr = <-hdone:
-			case <-time.After(4 * time.Second):
+			case <-time.After(vt.Patience(4 * time.Second)):
+				vt.TimedOut()
 				if sr.conn != nil {
 					_ = sr.conn.Close()
 				}
@@ -122,10 +176,11 @@ func TestC06_SessionBehindHandshake(t *testing.T) {
 			if async {
 				got := false
 				s.AsyncNextMessage(buf, func(err error, n int, mt websocket.MessageType) { got, r = true, rr{mt, n, err} })
-				deadline := time.Now().Add(6 * time.Second)
+				deadline := time.Now().Add(vt.Patience(6 * time.Second))
 				for !got {
 					_ = ioc.RunOneFor(2 * time.Millisecond)
 					if time.Now().After(deadline) {
+						vt.TimedOut()
 						rt.Fatalf("message %d of %d (%d sent with the response) never arrived: bytes behind the response head were lost; %s", i, len(want), len(p.Piggy), desc)
 					}
 				}
@@ -137,7 +192,8 @@ func TestC06_SessionBehindHandshake(t *testing.T) {
 				}()
 				select {
 				case r = <-ch:
-				case <-time.After(6 * time.Second):
+				case <-time.After(vt.Patience(6 * time.Second)):
+					vt.TimedOut()
 					rt.Fatalf("message %d of %d (%d sent with the response) never arrived: bytes behind the response head were lost; %s", i, len(want), len(p.Piggy), desc)
 				}
 			}
@@ -154,6 +210,9 @@ func TestC06_SessionBehindHandshake(t *testing.T) {
 		}
 		if inTerm {
 			cls = append(cls, "cut-inside-the-final-CRLFCRLF")
+		}
+		if refusedFirst != "" {
+			cls = append(cls, "after-a-refused-attempt-with-a-body")
 		}
 		rec.Case("hs:"+desc+fmt.Sprintf("|%x", head(want[0].Payload, 6)), len(p.Cuts)+len(p.EndCuts) > 0, cls, map[string]any{"plan": desc})
 	})
